@@ -32,9 +32,9 @@ def modInv (a n : Int) : Outcome Int :=
   let (g, x) := egcd (a % n) n
   if g == 1 then .ok (x % n) else .err
 
-/-- `backend = "rust"` encodes 0 as `[0]`, OpenSSL as `[]` -/
-def encInt (rustBackend : Bool) (x : Int) : ByteArray :=
-  if x == 0 && rustBackend then ByteArray.mk #[0] else Sha.natToBytes x.natAbs
+/-- `to_bytes`: big-endian magnitude, zero is the empty string on both backends (the pure-Rust
+    backend used to emit `[0]`; repaired in /repo) -/
+def encInt (_rustBackend : Bool) (x : Int) : ByteArray := Sha.natToBytes x.natAbs
 
 def znOps (n : Int) (rustBackend : Bool) : GroupOps Int :=
   { mul := fun a b => (a * b) % n
